@@ -402,4 +402,178 @@ theorem save_refines (hinj : Function.Injective H) {sys : Sys} {T : Tree} {V : L
           views := views_stable H hst hown.views }
       · exact ⟨hs1.grows.cells, hs1.grows.len, hs1.grows.db⟩
 
+/-- Carrying `Own` over a step that keeps the tree object and every representation. -/
+theorem Own.of_stable {sys : Sys} {T : Tree} {V : List (Option Node)} (hown : Own H sys T V) {st' : St}
+    (hst : RepStable H sys.st st') (hc : CacheOK st') (hdb : st'.db = sys.st.db) (hroots : st'.roots = sys.st.roots)
+    {V' : List (Option Node)} {vs' : List (Option Addr)} (hv : ViewsOK H st' V' vs') :
+    Own H { sys with st := st', views := vs' } T V' where
+  cache := hc
+  dbwf := by show DBWF H st'.db; rw [hdb]; exact hown.dbwf
+  root := RepRoot.stable H hst hown.root
+  last := RepRoot.stable H hst hown.last
+  version := hown.version
+  tversions := hown.tversions
+  roots := by show st'.roots = _; rw [hroots]; exact hown.roots
+  indb := by intro p hp t ht; show InDB H st'.db t; rw [hdb]; exact hown.indb p hp t ht
+  latest := by show St.latestVersion st' = _; rw [← hown.latest]; simp only [St.latestVersion, hroots]
+  wf := hown.wf
+  views := hv
+
+theorem rollback_refines {sys : Sys} {T : Tree} {V : List (Option Node)} (hown : Own H sys T V) (fuel : Nat) :
+    ∃ sys', stepH H Cfg.asIs fuel sys .rollback = some (sys', .unit) ∧ Own H sys' T.rollback V ∧ sys'.st = sys.st := by
+  refine ⟨{ sys with tree := rollback sys.tree }, rfl, ?_, rfl⟩
+  have hwf' : T.rollback.WF := Tree.step_wf T .rollback hown.wf
+  by_cases hv : T.version > 0
+  · have hv' : sys.tree.version > 0 := by rw [hown.version]; exact hv
+    have e1 : rollback sys.tree = { sys.tree with root := sys.tree.lastSaved, orphans := [] } := by simp [rollback, hv']
+    have e2 : T.rollback = { T with root := T.lastSaved } := by simp [Tree.rollback, hv]
+    rw [e1]
+    exact { cache := hown.cache, dbwf := hown.dbwf, root := by rw [e2]; exact hown.last,
+            last := by rw [e2]; exact hown.last, version := by rw [e2]; exact hown.version,
+            tversions := by rw [e2]; exact hown.tversions, roots := by rw [e2]; exact hown.roots,
+            indb := by rw [e2]; exact hown.indb, latest := by rw [e2]; exact hown.latest, wf := hwf',
+            views := hown.views }
+  · have hv' : ¬ sys.tree.version > 0 := by rw [hown.version]; exact hv
+    have e1 : rollback sys.tree = { sys.tree with root := none, orphans := [] } := by simp [rollback, hv']
+    have e2 : T.rollback = { T with root := none } := by simp [Tree.rollback, hv]
+    rw [e1]
+    exact { cache := hown.cache, dbwf := hown.dbwf, root := by rw [e2]; trivial,
+            last := by rw [e2]; exact hown.last, version := by rw [e2]; exact hown.version,
+            tversions := by rw [e2]; exact hown.tversions, roots := by rw [e2]; exact hown.roots,
+            indb := by rw [e2]; exact hown.indb, latest := by rw [e2]; exact hown.latest, wf := hwf',
+            views := hown.views }
+
+theorem workingHash_refines {sys : Sys} {T : Tree} {V : List (Option Node)} (hown : Own H sys T V) (fuel : Nat)
+    (hfuel : Adequate fuel T V) :
+    ∃ sys', stepH H Cfg.asIs fuel sys .workingHash = some (sys', .hash (T.root.map (treeHash H))) ∧
+      Own H sys' T V ∧ RepStable H sys.st sys'.st ∧ Grows sys.st sys'.st := by
+  cases hr : T.root with
+  | none =>
+    have hroot := hown.root
+    rw [hr] at hroot
+    cases hra : sys.tree.root with
+    | some a => rw [hra] at hroot; cases hroot
+    | none =>
+      exact ⟨sys, by simp [stepH, workingHash, hra], hown, RepStable.refl H _, Grows.refl _⟩
+  | some t =>
+    have hroot := hown.root
+    rw [hr] at hroot
+    cases hra : sys.tree.root with
+    | none => rw [hra] at hroot; cases hroot
+    | some a =>
+      rw [hra] at hroot
+      obtain ⟨st', e, hs, hc, hdb, _, _⟩ := hashWithCount_spec H t fuel All sys.st a (hfuel.1 t hr) hroot hown.cache
+      refine ⟨{ sys with st := st' }, by simp [stepH, workingHash, hra, e], ?_, hs.stable, hs.grows⟩
+      exact Own.of_stable H hown hs.stable hc hdb hs.roots (views_stable H hs.stable hown.views)
+
+theorem getRoot_eq {sys : Sys} {T : Tree} {V : List (Option Node)} (hown : Own H sys T V) (v : Nat) :
+    sys.st.getRoot v = (T.getImmutable v).map (Option.map (treeHash H)) := by
+  simp only [St.getRoot, Tree.getImmutable, hown.roots]
+  induction T.versions with
+  | nil => rfl
+  | cons p rest ih =>
+    simp only [List.map_cons, List.find?_cons]
+    cases hp : (p.1 == v)
+    · simp only []; exact ih
+    · simp
+
+theorem getImmutable_mem {T : Tree} {v : Nat} {root : Option Node} (h : T.getImmutable v = some root) :
+    (v, root) ∈ T.versions := by
+  simp only [Tree.getImmutable, Option.map_eq_some_iff] at h
+  obtain ⟨p, hp, rfl⟩ := h
+  have hmem := List.mem_of_find?_eq_some hp
+  have hv : p.1 = v := by simpa using List.find?_some hp
+  rw [← hv]; exact hmem
+
+/-- Opening a view of version `v` (`GetImmutable`, and the last step of `LazyLoadVersion`). -/
+theorem openView {sys : Sys} {T : Tree} {V : List (Option Node)} (hown : Own H sys T V) (v : Nat) :
+    ∃ st' res, getImmutable sys.st v = some (st', res) ∧ Ext sys.st st' ∧ CacheOK st' ∧
+      (match T.getImmutable v with
+        | none => res = .errMissing
+        | some root => ∃ ra, res = .view ra v ∧ RepRoot H All st' root ra) := by
+  have hg := getRoot_eq H hown v
+  cases hi : T.getImmutable v with
+  | none =>
+    rw [hi] at hg
+    exact ⟨sys.st, .errMissing, by simp [getImmutable, hg], ExtOn.refl _ _, hown.cache, rfl⟩
+  | some root =>
+    rw [hi] at hg
+    cases root with
+    | none =>
+      exact ⟨sys.st, .view none v, by simp [getImmutable, hg], ExtOn.refl _ _, hown.cache, none, rfl, trivial⟩
+    | some t =>
+      have hindb := hown.indb _ (getImmutable_mem hi) t rfl
+      obtain ⟨st', a, e, hext, hc, _, hrep⟩ := getNode_spec H hown.cache hindb
+      exact ⟨st', .view (some a) v, by simp [getImmutable, hg, e], hext, hc, some a, rfl, hrep All trivial⟩
+
+theorem getImmutable_refines {sys : Sys} {T : Tree} {V : List (Option Node)} (hown : Own H sys T V) (v fuel : Nat) :
+    ∃ sys', stepH H Cfg.asIs fuel sys (.getImmutable v) = some (sys', .opened (T.getImmutable v).isSome) ∧
+      Own H sys' T (pureViews T V (.getImmutable v)) ∧ Ext sys.st sys'.st := by
+  obtain ⟨st', res, e, hext, hc, hres⟩ := openView H hown v
+  have hst := RepStable.of_ext H hext
+  cases hi : T.getImmutable v with
+  | none =>
+    rw [hi] at hres; subst hres
+    refine ⟨{ sys with st := st' }, by simp [stepH, e], ?_, hext⟩
+    simp only [pureViews, hi]
+    exact Own.of_stable H hown hst hc hext.db hext.roots (views_stable H hst hown.views)
+  | some root =>
+    rw [hi] at hres
+    obtain ⟨ra, rfl, hrep⟩ := hres
+    refine ⟨{ sys with st := st', views := sys.views ++ [ra] }, by simp [stepH, e], ?_, hext⟩
+    simp only [pureViews, hi]
+    exact Own.of_stable H hown hst hc hext.db hext.roots (views_push H (views_stable H hst hown.views) hrep)
+
+theorem lazy_heap_eq (st : St) (target : Int) :
+    lazyLoadVersion st target =
+      if (st.latestVersion : Int) < target then some (st, .errTooNew)
+      else if st.latestVersion = 0 then some (st, .nilTree)
+      else getImmutable st (if target ≤ 0 then st.latestVersion else target.toNat) := rfl
+
+theorem lazy_pure_eq (T : Tree) (target : Int) :
+    T.lazyLoadVersion target =
+      if (T.version : Int) < target then .errTooNew
+      else if T.version = 0 then .nilTree
+      else match T.getImmutable (if target ≤ 0 then T.version else target.toNat) with
+        | none => .errMissing
+        | some r => .view r (if target ≤ 0 then T.version else target.toNat) := rfl
+
+theorem lazyLoad_refines {sys : Sys} {T : Tree} {V : List (Option Node)} (hown : Own H sys T V) (target : Int)
+    (fuel : Nat) :
+    ∃ sys', stepH H Cfg.asIs fuel sys (.lazyLoad target) =
+        some (sys', .opened (match T.lazyLoadVersion target with | .view _ _ => true | _ => false)) ∧
+      Own H sys' T (pureViews T V (.lazyLoad target)) ∧ Ext sys.st sys'.st := by
+  by_cases h1 : (T.version : Int) < target
+  · have eH : lazyLoadVersion sys.st target = some (sys.st, .errTooNew) := by
+      rw [lazy_heap_eq, hown.latest, if_pos h1]
+    have eP : T.lazyLoadVersion target = .errTooNew := by rw [lazy_pure_eq, if_pos h1]
+    refine ⟨sys, by simp only [stepH, eH, eP, Option.map_some], ?_, ExtOn.refl _ _⟩
+    simp only [pureViews, eP]; exact hown
+  · by_cases h2 : T.version = 0
+    · have eH : lazyLoadVersion sys.st target = some (sys.st, .nilTree) := by
+        rw [lazy_heap_eq, hown.latest, if_neg h1, if_pos h2]
+      have eP : T.lazyLoadVersion target = .nilTree := by rw [lazy_pure_eq, if_neg h1, if_pos h2]
+      refine ⟨sys, by simp only [stepH, eH, eP, Option.map_some], ?_, ExtOn.refl _ _⟩
+      simp only [pureViews, eP]; exact hown
+    · obtain ⟨st', res, e, hext, hc, hres⟩ := openView H hown (if target ≤ 0 then T.version else target.toNat)
+      have eH : lazyLoadVersion sys.st target = some (st', res) := by
+        rw [lazy_heap_eq, hown.latest, if_neg h1, if_neg h2, e]
+      have hst := RepStable.of_ext H hext
+      cases hi : T.getImmutable (if target ≤ 0 then T.version else target.toNat) with
+      | none =>
+        rw [hi] at hres; subst hres
+        have eP : T.lazyLoadVersion target = .errMissing := by rw [lazy_pure_eq, if_neg h1, if_neg h2, hi]
+        refine ⟨{ sys with st := st' }, by simp only [stepH, eH, eP, Option.map_some], ?_, hext⟩
+        simp only [pureViews, eP]
+        exact Own.of_stable H hown hst hc hext.db hext.roots (views_stable H hst hown.views)
+      | some root =>
+        rw [hi] at hres
+        obtain ⟨ra, rfl, hrep⟩ := hres
+        have eP : T.lazyLoadVersion target = .view root (if target ≤ 0 then T.version else target.toNat) := by
+          rw [lazy_pure_eq, if_neg h1, if_neg h2, hi]
+        refine ⟨{ sys with st := st', views := sys.views ++ [ra] }, by simp only [stepH, eH, eP, Option.map_some], ?_,
+          hext⟩
+        simp only [pureViews, eP]
+        exact Own.of_stable H hown hst hc hext.db hext.roots (views_push H (views_stable H hst hown.views) hrep)
+
 end Iavl.Heap
